@@ -557,11 +557,12 @@ static void _binson_to_string_cb(binson_parser *parser, uint16_t next_state, voi
     binson_state *state = parser->current_state;
     struct _to_string_ctx *ctx = (struct _to_string_ctx *) context;
     uint8_t *pstate = &ctx->pstate;
-    char *pbuf = &ctx->buffer[ctx->buffer_used];
+    char *pbuf = NULL;
 
     size_t available = 0;
     if (ctx->buffer_used < ctx->buffer_size) {
         available = ctx->buffer_size - ctx->buffer_used;
+        pbuf = &ctx->buffer[ctx->buffer_used];
     }
      
     size_t ret = 0;
@@ -572,10 +573,10 @@ static void _binson_to_string_cb(binson_parser *parser, uint16_t next_state, voi
             ctx->buffer_full = true;
         }
         ctx->buffer_used += ret;
-        pbuf = &ctx->buffer[ctx->buffer_used];
         if (available > 0) {
             available--;
         }
+        pbuf = (available > 0) ? &ctx->buffer[ctx->buffer_used] : NULL;
     }
 
     if (*pstate == 0x04) {
@@ -618,7 +619,7 @@ static void _binson_to_string_cb(binson_parser *parser, uint16_t next_state, voi
                 {
                     available--;
                 }
-                pbuf = &ctx->buffer[ctx->buffer_used];
+                pbuf = (available > 0) ? &ctx->buffer[ctx->buffer_used] : NULL;
             }
             *pstate = 0x02;
             ret = snprintf(pbuf, available, "\"%*.*s\":", 0, (int) state->current_name.bsize, (const char* ) parser->current_state->current_name.bptr);
@@ -645,7 +646,7 @@ static void _binson_to_string_cb(binson_parser *parser, uint16_t next_state, voi
             if (available >= ret) {
                 available -= ret;
             }
-            pbuf = &ctx->buffer[ctx->buffer_used];
+            pbuf = (available > 0) ? &ctx->buffer[ctx->buffer_used] : NULL;
             if ((state->current_value.bytes_value.bsize > ((SIZE_MAX/2)-2)) ||
                 !_check_boundary(ctx->buffer_used, (state->current_value.bytes_value.bsize*2) + 2, ctx->buffer_size)) {
                 ctx->buffer_full = true;
@@ -654,9 +655,9 @@ static void _binson_to_string_cb(binson_parser *parser, uint16_t next_state, voi
             ret = 0;
             size_t i;
             for (i = 0; i < state->current_value.bytes_value.bsize; i++) {
-                ret += snprintf(&pbuf[ret], available, "%02x", state->current_value.bytes_value.bptr[i]);
+                ret += snprintf((available > 0) ? &pbuf[ret] : NULL, available, "%02x", state->current_value.bytes_value.bptr[i]);
             }
-            ret += snprintf(&pbuf[ret], available, "\"");
+            ret += snprintf((available > 0) ? &pbuf[ret] : NULL, available, "\"");
             break;
 
     }
